@@ -98,6 +98,7 @@ const (
 	OFIsNaN
 	OFIsInf
 	OFIsNeg
+	OFRound
 	OFFromSBV // P = target width
 	OFFromUBV
 	OFToSBV // P = target width (RTZ)
@@ -638,6 +639,8 @@ func (b *Builder) FUn(op Op, x *Term) *Term {
 			return b.BoolC(math.IsInf(a, 0))
 		case OFIsNeg:
 			return b.BoolC(math.Signbit(a) && !math.IsNaN(a))
+		case OFRound:
+			return b.fconst(math.RoundToEven(a), x.Sort.W)
 		}
 	}
 	s := x.Sort
@@ -677,6 +680,9 @@ func (b *Builder) FToFP(x *Term, w int) *Term {
 	}
 	if x.IsConst() {
 		return b.fconst(fval(x), w)
+	}
+	if x.Op == OFToFP && x.Args[0].Sort.W == w && w < x.Sort.W {
+		return x.Args[0] // widening then narrowing back is exact
 	}
 	return b.mk(&Term{Op: OFToFP, Sort: Sort{K: KFP, W: w}, Args: []*Term{x}, P: w})
 }
@@ -809,6 +815,8 @@ func renderNode(x *Term, r func(*Term) string) string {
 	case OFAdd, OFSub, OFMul, OFDiv:
 		n := map[Op]string{OFAdd: "fp.add", OFSub: "fp.sub", OFMul: "fp.mul", OFDiv: "fp.div"}[x.Op]
 		return fmt.Sprintf("(%s RNE %s %s)", n, r(x.Args[0]), r(x.Args[1]))
+	case OFRound:
+		return fmt.Sprintf("(fp.roundToIntegral RNE %s)", r(x.Args[0]))
 	case OFFromSBV:
 		return fmt.Sprintf("((_ to_fp %s) RNE %s)", fpParams(x.P), r(x.Args[0]))
 	case OFFromUBV:
